@@ -71,6 +71,8 @@ type RunSpec struct {
 	// optional: scenario logs go to this file instead of the output (not verbose), which is
 	// the configuration in which an interactive output prints the rendered views
 	LogFile string
+	// optional: push-gateway settings (what PROMETHEUS_PUSH_GATEWAY / _NAMESPACE / _LABEL_ID configure)
+	Prometheus envsettings.Prometheus
 }
 
 // Built is a constructed run plus what the oracles need.
@@ -172,7 +174,7 @@ func (rs *RunSpec) Build() (*Built, error) {
 	if ct == 0 {
 		ct = 10 * time.Second
 	}
-	r, err := run.NewRun(opts, scs, tr, ct, envsettings.Settings{Log: envsettings.Log{FilePath: rs.LogFile}}, m, out)
+	r, err := run.NewRun(opts, scs, tr, ct, envsettings.Settings{Log: envsettings.Log{FilePath: rs.LogFile}, Prometheus: rs.Prometheus}, m, out)
 	if err != nil {
 		return nil, err
 	}
